@@ -125,8 +125,10 @@ func builtinStringLastIndexOf(call FunctionCall) Value {
 		return intValue(lastIndexRune(value, target))
 	}
 	start := call.ArgumentList[1].number()
-	if start.kind == numberInfinity { // FIXME
-		// startNumber is infinity, so start is the end of string (start = length)
+	if start.kind == numberNaN || start.int64 >= int64(length) {
+		// NaN means +Infinity (15.5.4.8 step 5) and anything beyond the end is
+		// clamped to it, so start is the end of string (start = length).
+		// -Infinity has int64 == MinInt64 and is clamped to 0 below.
 		return intValue(lastIndexRune(value, target))
 	}
 	if 0 > start.int64 {
